@@ -25,11 +25,27 @@ type c05Input struct {
 	After  []int  `json:"after"`
 	Start  []int  `json:"start"` // 0 none, 1 line comment (a "\n" Start decoration after spacing is an extra line break by design: "// c", "\n" is how a blank line after a comment is stored)
 	End    []int  `json:"end"`   // 0 none, 1 line comment, 2 "\n"
+	Inner  []int  `json:"inner,omitempty"` // stmt lists: Before of the expression inside the statement (it starts at the same position): 0 None, 1 NewLine -- spacing is not additive
 }
 
 func c05Template(kind string, n int) (string, func(f *dst.File) []dst.Node) {
 	var sb strings.Builder
 	switch kind {
+	case "rawstmt":
+		// statements that end in a raw string with an empty line inside: the line table must count
+		// every line of the literal, or the spacing after it is measured short
+		sb.WriteString("package a\n\nfunc f() {\n")
+		for i := 0; i < n; i++ {
+			fmt.Fprintf(&sb, "\te%d = `x\n\ny\n\n\nz e%d`\n", i, i)
+		}
+		sb.WriteString("}\n")
+		return sb.String(), func(f *dst.File) []dst.Node {
+			var out []dst.Node
+			for _, s := range f.Decls[0].(*dst.FuncDecl).Body.List {
+				out = append(out, s)
+			}
+			return out
+		}
 	case "stmt":
 		sb.WriteString("package a\n\nfunc f() {\n")
 		for i := 0; i < n; i++ {
@@ -112,6 +128,11 @@ func c05Check(in c05Input) (key, what string) {
 	}
 	for i, e := range es {
 		d := e.Decorations()
+		if i < len(in.Inner) && in.Inner[i] == 1 {
+			if es, ok := e.(*dst.ExprStmt); ok {
+				es.X.Decorations().Before = dst.NewLine
+			}
+		}
 		d.Before = dst.SpaceType(in.Before[i])
 		d.After = dst.SpaceType(in.After[i])
 		switch in.Start[i] {
@@ -163,7 +184,7 @@ func c05Check(in c05Input) (key, what string) {
 		}
 	}
 	switch in.Kind {
-	case "stmt", "field", "spec":
+	case "stmt", "rawstmt", "field", "spec":
 		for li, l := range lines {
 			t := strings.TrimSpace(l)
 			if open < 0 && (strings.HasSuffix(t, "{") || strings.HasSuffix(t, "(")) {
@@ -386,7 +407,7 @@ func c05ExprCheck(in c05ExprInput) (key, what string) {
 
 func c05Prop(c *Ctx) {
 	c.Res.Rule = "five own-line list kinds (stmt, decl, field, spec, case) x n in 1..4 elements: exhaustive over Before/After in {None,NewLine,EmptyLine}^2 for pairs (n=2, all 81 x 9 Start/End decoration choices on the boundary), random for n=3,4; plus call/composite-literal lists with NewLine; non-trivial = distinct assignment"
-	kinds := []string{"stmt", "decl", "field", "spec", "case"}
+	kinds := []string{"stmt", "decl", "field", "spec", "case", "rawstmt"}
 	run := func(in c05Input) {
 		c.Res.Evaluations++
 		c.Res.seen(fmt.Sprint(in))
@@ -409,7 +430,7 @@ func c05Prop(c *Ctx) {
 								if k == "decl" && (b0 != 2 || s1 != 0) {
 									continue // the first declaration follows the package clause; go/printer itself puts a blank line before a declaration with a doc comment
 								}
-								run(c05Input{k, []int{b0, b1}, []int{a0, a1}, []int{0, s1}, []int{e0, 0}})
+								run(c05Input{Kind: k, Before: []int{b0, b1}, After: []int{a0, a1}, Start: []int{0, s1}, End: []int{e0, 0}})
 							}
 						}
 					}
@@ -432,6 +453,18 @@ func c05Prop(c *Ctx) {
 				}
 			}
 			run(in)
+			if k == "stmt" {
+				// the same with NewLine on the expression inside some statements, where the statement's own
+				// spacing already breaks the line
+				in2 := in
+				in2.Inner = make([]int, n)
+				for i := range in2.Inner {
+					if in2.Before[i] != 0 && in2.Start[i] == 0 {
+						in2.Inner[i] = c.Rng.Intn(2)
+					}
+				}
+				run(in2)
+			}
 		}
 	}
 	for _, k := range []string{"call", "lit", "param"} {
@@ -484,6 +517,9 @@ var keepsBlankCache = map[string]bool{}
 // gofmtKeepsBlankBeforeClose: does gofmt itself preserve a blank line between the last element
 // and the closing delimiter of this list kind?  (It strips it in struct field lists.)
 func gofmtKeepsBlankBeforeClose(kind string) bool {
+	if kind == "rawstmt" {
+		kind = "stmt"
+	}
 	if v, ok := keepsBlankCache[kind]; ok {
 		return v
 	}
@@ -505,6 +541,9 @@ func gofmtKeepsBlankBeforeClose(kind string) bool {
 // gofmtKeepsBlankAfterOpen: likewise for a blank line between the opening delimiter and the
 // first element.
 func gofmtKeepsBlankAfterOpen(kind string) bool {
+	if kind == "rawstmt" {
+		kind = "stmt"
+	}
 	if v, ok := keepsBlankCache["open:"+kind]; ok {
 		return v
 	}
